@@ -220,6 +220,23 @@ TransferRes(i, s, x) ==
   ELSE Ignore(s)
 
 \* ---- vote responses (stepCandidate)
+\* Note on membership changes during a campaign (examined on real code in round 4, raftsim profile
+\* shrinkq).  As in the code (raft.poll), every grant recorded in vg counts, also the grant of a
+\* member that has been removed since, and it is compared with the quorum of the CURRENT voters.
+\* If a candidate could apply "remove X", "remove Y" in the middle of its campaign, the quorum would
+\* shrink under votes that no longer belong to the configuration: with 5 voters candidate C holding
+\* {C, X} applies both removals, counts 2 of {L, C, B} and leads the same term in which B was
+\* elected by L - two leaders in one term ON REAL CODE (TLC: ElectionSafety violated on the recorded
+\* trace under ZRaftTrace_lazyapply.cfg).  What makes this unreachable in the system is NOT a guard of
+\* the raft package but the application contract modelled by rdy.confs (Send/Advance below): node/raft.go
+\* processReady applies the configuration changes of every Ready before it advances it (waitApply),
+\* except for the Ready in which the replica becomes leader, and that Ready cannot carry a
+\* configuration entry in a group with more than one voter (the hup guard held when the campaign
+\* started and the commit index does not move during a candidacy).  Hence applied (raft's cursor) never
+\* runs ahead of the applied configuration on a replica that can campaign, the hup guard sees every
+\* committed-but-unapplied configuration entry, and ApplyConf cannot fall between Campaign and the
+\* last vote.  With LazyApply = TRUE (an application that advances first, which the Node interface
+\* documents as allowed) the library alone is NOT safe.
 HandleVoteResp(i, s, m) ==
   LET mine == (m.t = "MsgPreVoteResp" /\ s.role = "P") \/ (m.t = "MsgVoteResp" /\ s.role = "C")
       known == m.from \in s.vg \cup s.vr
